@@ -10,7 +10,7 @@ into the evidence through chk.count):
                        histories; 2..5 in the exhaustive coarsen_grid sweep
   start levels         lmin 1..3, lmax - lmin 0..3 in histories (the scheme grows with every extend of a coarsening-0 area);
                        lmin 0..3, lmax - lmin 0..6 in the sweep
-  coarsening version   0, 1, 2 (3 is undocumented and outside the property)
+  coarsening version   0, 1, 2 and the undocumented 3 (Model/ESV3.v; its assert fails for lmin = 0: excluded there)
   number_of_refinements_before_extend 0..3 and 6 (never extends)
   automatic_extend_split / split_single_dim  on / off (all four combinations)
   refinement decisions scripted benefits k/8 per (seed, step, box) incl. zeros and ties; `uniform` histories (all benefits
@@ -31,7 +31,7 @@ into the evidence through chk.count):
                        emptied and the question asked again. ndarray arguments (and lists of lists / of arrays) are excluded:
                        the unchanged code raises TypeError (unhashable) in get_points_in_areas_recursive
   excluded (raise on the unchanged tree, not part of the documented options): no_initial_splitting=True (assert False in
-                       initialize_refinement), dim_adaptive=True (TypeError in combiScheme), version 3
+                       initialize_refinement), dim_adaptive=True (TypeError in combiScheme)
 """
 import itertools
 import random
@@ -50,7 +50,7 @@ ASSUMPTIONS = [
     'benefit >= benefit_max*0.9 is decided identically in binary64 and in exact arithmetic (margin modelled as 9/10)',
     'twin bookkeeping and the error-estimate arithmetic of automatic_extend_split are not modelled (only their calls of '
     'coarsen_grid on dead parent areas, which do not touch the leaves)',
-    'coarsening version 3 (undocumented) is outside the property and not modelled',
+    'coarsening version 3 (undocumented, outside the property text) is modelled in Model/ESV3.v and compared like the others',
     'interpolation: the model interpolates in exact rational arithmetic; implementation values are compared with the '
     'tolerance 1e-9 * (1 + |value|) (polynomial test function with dyadic coefficients, dyadic points)',
     'restart performSpatiallyAdaptiv(refinement_container=...) is modelled as an evaluation of all areas (Model/ESInterp.v restart = '
@@ -86,7 +86,7 @@ def gen_events(rng, steps, lmin, span, dim, auto=False, p_restart=0.09):
 
 def gen_case(rng, tier, i):
     dim = rng.choice([2, 2, 2, 2, 3, 3, 3, 4, 1])
-    version = rng.choice([0, 1, 2])
+    version = rng.choice([0, 1, 2, 0, 1, 2, 3])
     if dim == 1 and rng.random() < 0.6:
         version = rng.choice([1, 2])
     nrbe = rng.choice([0, 1, 2, 3, 0, 1, 2, 6])
@@ -100,8 +100,9 @@ def gen_case(rng, tier, i):
         lmin = rng.choice([1, 1, 2]); span = rng.choice([0, 1]) if lmin == 1 else 0
     if dim <= 2 and lmin == 3:
         span = min(span, 2)
-    if auto and span == 0 and rng.random() < 0.9:
-        span = 1        # lmin = lmax with automatic_extend_split raises at the first refine(): kept at low frequency
+    auto_scripted = auto and rng.random() < 0.5
+    if auto and not auto_scripted and span == 0 and rng.random() < 0.9:
+        span = 1        # lmin = lmax with the real error estimator of automatic_extend_split raises at the first refine(): low frequency
     steps = rng.randrange(2, 6 if dim <= 2 else (5 if dim == 3 else 3))
     dom = [rng.choice(DOMAINS) for _ in range(dim)]
     fn = rng.choice([0, 1, 2, 3, 3])
@@ -124,7 +125,11 @@ def gen_case(rng, tier, i):
         c['reuse'] = dict(mode='mixed', use=[1] + [int(rng.random() < 0.6) for _ in range(6)], container='list')
     if rng.random() < (0.6 if c.get('reuse') else 0.25):
         c['spread'] = True
-    c['events'] = gen_events(rng, steps, lmin, span, dim, auto, p_restart=(0.3 if c.get('reuse') else 0.09))
+    if auto_scripted:
+        # the benefit numbers compared by RefinementObjectExtendSplit.refine are scripted (k/8, ties included) instead of coming
+        # out of the float error estimator; in both modes the model COMPUTES the extend/split bit from the numbers
+        c['auto_scripted'] = True
+    c['events'] = gen_events(rng, steps, lmin, span, dim, auto and not auto_scripted, p_restart=(0.3 if c.get('reuse') else 0.09))
     if fn == 3:
         c['poly'] = [[str(Fraction(rng.randrange(-4, 5), 2)) for _ in range(dim)],
                      [str(Fraction(rng.choice([-3, -1, 1, 2, 3, 5, 6]), 2)) for _ in range(dim)]]
@@ -254,7 +259,7 @@ def impl_run(case):
     spread = bool(case.get('spread'))
     reuse = case.get('reuse')
     rng = random.Random(seed)
-    tr = dict(step=0, phase='', compute=[], refined=[], bens=[])
+    tr = dict(step=0, phase='', compute=[], refined=[], bens=[], nums={}, twin=[])
 
     class Scripted(ErrorCalculator):
         def calc_error(self, f, norm, volume_weights=None):
@@ -280,17 +285,43 @@ def impl_run(case):
                 tr['compute'].append((_box(area), [int(x) for x in levelvector], [int(x) for x in res[0]], bool(res[1])))
             return res
 
+        def compute_benefits_for_operations(self, area):
+            if not case.get('auto_scripted'):
+                return super().compute_benefits_for_operations(area)
+            # scripted benefit numbers k/8 (ties included) instead of the float error estimator
+            h = zlib.crc32(repr((seed, tr['step'], [str(x) for x in _box(area)[0]], [str(x) for x in _box(area)[1]], 'auto')).encode())
+            area.parent_info.benefit_extend = ((h >> 4) % 5) / 8.0
+            area.parent_info.benefit_split = ((h >> 9) % 5) / 8.0
+            area.parent_info.extend_error_correction = 0.0
+
         def do_refinement(self, area, position):
             n0 = len(self.refinement.get_objects())
             res = super().do_refinement(area, position)
             new = self.refinement.get_objects()[n0:]
             pb = _box(area)
+            if self.automatic_extend_split:
+                # the numbers RefinementObjectExtendSplit.refine compared
+                tr['nums'][pb] = (_fr(area.parent_info.benefit_extend), _fr(area.parent_info.benefit_split))
             if len(new) == 1:
                 tr['refined'].append((pb, 1, []))
             else:
                 dims = [d for d in range(self.dim) if any(_box(o)[0][d] != pb[0][d] or _box(o)[1][d] != pb[1][d] for o in new)]
                 tr['refined'].append((pb, 0, dims))
             return res
+
+    from sparseSpACE.RefinementObject import RefinementObjectExtendSplit as ROES
+    orig_set, orig_refine = ROES.set_twin_error, ROES.refine
+
+    def set_twin_error_logged(self, d, twinError):
+        res = orig_set(self, d, twinError)
+        tr['twin'].append([0, list(_box(self)[0]), list(_box(self)[1]), int(d), _fr(self.twinErrors[d])])
+        return res
+
+    def refine_logged(self):
+        res = orig_refine(self)
+        new = res[0]
+        tr['twin'].append([1, list(_box(self)[0]), list(_box(self)[1]), int(len(new) == 1 and _box(new[0]) == _box(self))])
+        return res
 
     f = _make_function(case)
     grid = TrapezoidalGrid(a=a, b=b, boundary=True)
@@ -479,9 +510,16 @@ def impl_run(case):
         st['kind'] = kind
         st['nref'] = int(s.refinements)
         states.append(st)
+        if case['single']:
+            st['twin_errors'] = sorted([list(_box(o)[0]), list(_box(o)[1]), [(None if t is None else _fr(t)) for t in o.twinErrors]]
+                                       for o in s.refinement.get_objects())
         inputs.append(dict(kind=kind, lmin=lmin, lmax=lmax, bens=list(tr['bens']),
-                           decs=list(tr['refined']) if kind == 'step' else [], pts=[list(p) for p in pts]))
+                           decs=[tuple(x) + tuple(tr['nums'].get(x[0], ())) for x in tr['refined']] if kind == 'step' else [],
+                           pts=[list(p) for p in pts], twin=list(tr['twin'])))
+        tr['twin'] = []
+        tr['nums'] = {}
 
+    ROES.set_twin_error, ROES.refine = set_twin_error_logged, refine_logged
     try:
         with contextlib.redirect_stdout(io.StringIO()):
             tr['step'] = 0
@@ -512,6 +550,8 @@ def impl_run(case):
                 break
         in_est = any(fr.name in AUTO_ESTIMATOR and 'sparseSpACE' in fr.filename for fr in frames)
         abort = (type(e).__name__, where, str(e)[:200], tr['step'], func, in_est)
+    finally:
+        ROES.set_twin_error, ROES.refine = orig_set, orig_refine
     return dict(states=states, inputs=inputs, abort=abort)
 
 
@@ -620,7 +660,7 @@ def model_inputs(case, r, variant=0):
         i0 = r['inputs'][lo]
         cfg = [case['dim'], case['version'], case['nrbe'], int(case['auto']), int(case['single']), i0['lmin'], i0['lmax'],
                [Fraction(x) for x in case['a']], [Fraction(x) for x in case['b']], variant]
-        steps = [[[[list(b[0]), list(b[1]), ext, dims] for b, ext, dims in i['decs']], enc_bens(i['bens']), i['pts'],
+        steps = [[[([list(x[0][0]), list(x[0][1]), x[1], x[2]] + list(x[3:5])) for x in i['decs']], enc_bens(i['bens']), i['pts'],
                   1 if i['kind'] == 'restart' else 0] for i in r['inputs'][lo + 1:hi]]
         out.append([cfg, poly, enc_bens(i0['bens']), i0['pts'], steps])
     return out
@@ -830,6 +870,46 @@ def span0_at(c, step):
     return lmin == lmax
 
 
+def twin_jobs(case, r):
+    """one twin-bookkeeping model run (entry sub 6) per segment: (job, observed split dims in order, final twin errors)"""
+    out = []
+    for lo, hi in segments(r):
+        evs = [ev for i in r['inputs'][lo:hi] for ev in i.get('twin', [])]
+        seen = [[list(x[0][0]), list(x[0][1]), list(x[2])] for i in r['inputs'][lo:hi] for x in i['decs'] if not x[1]]
+        job = (6, [case['dim'], [Fraction(x) for x in case['a']], [Fraction(x) for x in case['b']], evs])
+        out.append((job, seen, r['states'][hi - 1].get('twin_errors'), hi - 1))
+    return out
+
+
+def check_twins(chk, cases, impl, idx):
+    """split_single_dim: the split dimensions as a FUNCTION of the twin errors (Model/ESAuto.v) and the twin-error table"""
+    jobs, meta = [], []
+    for i in idx:
+        if cases[i]['single'] and cases[i]['dim'] >= 2:
+            for job, seen, table, last in twin_jobs(cases[i], impl[i][1]):
+                jobs.append(job)
+                meta.append((i, seen, table, last))
+    res = run_model(7, jobs)
+    for (i, seen, table, last), m in zip(meta, res):
+        c = cases[i]
+        chk.count('twin-bookkeeping:segments')
+        if not model_ok(m):
+            chk.violation('corr:C07/twins', 'model-rejects', sig_of(c), c, dict(model=str(m)[:300]), failing_input=False)
+            continue
+        mlog = [[_ql(s_), _ql(e_), list(d_)] for s_, e_, d_ in m[0]]
+        mtab = sorted([_ql(s_), _ql(e_), [(None if t == [] else _q(t[0])) for t in te]] for s_, e_, te in m[1])
+        chk.count('twin-bookkeeping:splits', len(seen))
+        if mlog != seen:
+            k = next((j for j, (x, y) in enumerate(zip(mlog, seen)) if x != y), min(len(mlog), len(seen)))
+            chk.violation('corr:C07/split-dims', 'history-differs', sig_of(c, observable='split-dims'), dict(c, steps=last),
+                          dict(split_number=k, model=str(mlog[k:k + 1]), impl=str(seen[k:k + 1]),
+                               note='get_split_dims: dimensions with twinErrors[d] >= 0.9 * max(twinErrors)'), failing_input=False)
+        elif table is not None and mtab != table:
+            bad = [(x, y) for x, y in zip(mtab, table) if x != y][:2]
+            chk.violation('corr:C07/twin-errors', 'history-differs', sig_of(c, observable='twin-errors'), dict(c, steps=last),
+                          dict(model_vs_impl=str(bad)[:600], sizes=(len(mtab), len(table))), failing_input=False)
+
+
 def run_models(cases, impl, idx, variant):
     """model runs for the cases idx; returns {i: flat list of observations | error}"""
     jobs, owner = [], []
@@ -859,6 +939,7 @@ def check_cases(chk, cases):
     midx = [i for i, (st, r) in enumerate(impl) if st == 'ok' and r['states']]
     mres = run_models(cases, impl, midx, 0)
     # cases on which the pinned-code variant differs are re-run against the repaired variant (only differs for lmin != 1)
+    check_twins(chk, cases, impl, midx)
     retry = [i for i in midx if uses_repaired_levels(cases[i]) and isinstance(mres[i], list) and compare(cases[i], impl[i][1], mres[i])]
     mres1 = run_models(cases, impl, retry, 1)
     keys, samples = [], []
@@ -869,6 +950,8 @@ def check_cases(chk, cases):
         chk.count('auto=%s' % c['auto']); chk.count('single=%s' % c['single']); chk.count('lmin=%d' % c['lmin'])
         chk.count('span=%d' % (c['lmax'] - c['lmin'])); chk.count('fn=%d' % c['fn'])
         chk.count('auto/single=%s/%s' % (c['auto'], c['single']))
+        if c['auto']:
+            chk.count('automatic decision numbers=%s' % ('scripted' if c.get('auto_scripted') else 'real error estimator'))
         for e in events_of(c):
             chk.count('event=%s' % (e if isinstance(e, str) else 'rerun'))
         if c.get('uniform'):
@@ -978,8 +1061,9 @@ def gen_sweeps(rng):
     out = []
     for dim in (2, 3, 4, 5):
         spans = {2: range(0, 7), 3: range(0, 7), 4: range(0, 5), 5: range(0, 4)}[dim]
-        for version in (0, 1, 2):
-            cfgs = [(lmin, lmin + sp) for lmin in (0, 1, 2, 3) for sp in spans if not (dim >= 4 and lmin == 0)]
+        for version in (0, 1, 2, 3):
+            # version 3: its assert hard-codes minimum level 1 and fails for lmin = 0 (AssertionError on the unchanged tree): excluded
+            cfgs = [(lmin, lmin + sp) for lmin in (0, 1, 2, 3) for sp in spans if not ((dim >= 4 or version == 3) and lmin == 0)]
             rng.shuffle(cfgs)
             for part in (cfgs[0::2], cfgs[1::2]):
                 out.append(dict(kind='sweep', dim=dim, version=version, configs=[list(x) for x in part]))
@@ -995,10 +1079,16 @@ def check_sweeps(chk, sweeps):
                           dict(impl=str(r)), failing_input=True)
             continue
         for ri, row in enumerate(r):
+            if c['version'] == 3:
+                jobs.append((5, [c['dim'], row['lmin'], row['lmax'], row['c']]))
+                owner.append((si, ri, 0))
+                continue
             for variant in ((0, 1) if (c['version'] in (1, 2) and row['lmin'] != 1) else (0,)):
                 jobs.append((4, [c['dim'], c['version'], row['lmin'], row['lmax'], row['c'], variant]))
                 owner.append((si, ri, variant))
     res = run_model(7, jobs)
+    # version 3 (entry sub 5): (rows, valid_local_combi, assert ok) -> same shape as sub 4 (the dictionary is not used: both passes equal)
+    res = [([m[0], m[0], (1 if (m[1] == 1 and m[2] == 1) else 0)] if (j[0] == 5 and model_ok(m)) else m) for j, m in zip(jobs, res)]
     byrow = {}
     for (si, ri, variant), m in zip(owner, res):
         byrow.setdefault((si, ri), {})[variant] = m
@@ -1055,7 +1145,7 @@ def run(chk):
     cases = CORPUS + [gen_case(chk.rng, chk.tier, i) for i in range(n)]
     keys, samples = check_cases(chk, cases)
     chk.record_cases(len(cases), keys,
-                     'random extend-split histories on ONE real SpatiallyAdaptiveExtendScheme object (d 1..4, versions 0..2, '
+                     'random extend-split histories on ONE real SpatiallyAdaptiveExtendScheme object (d 1..4, versions 0..3, '
                      'number_of_refinements_before_extend 0..3 and 6, automatic_extend_split on/off, split_single_dim on/off, '
                      'lmin 1..3, lmax-lmin 0..3, 2..5 events: refine() rounds, restarts with the old refinement container, '
                      're-runs with other start levels; scripted benefits; coarsen_grid, point assignment and interpolation '
@@ -1064,7 +1154,7 @@ def run(chk):
     sweeps = gen_sweeps(chk.rng)
     ns, skeys = check_sweeps(chk, sweeps)
     chk.record_cases(ns, skeys,
-                     'exhaustive sweep of coarsen_grid on fresh areas: d 2..5, versions 0..2, lmin 0..3, lmax-lmin 0..6 (d<=3), '
+                     'exhaustive sweep of coarsen_grid on fresh areas: d 2..5, versions 0..3 (3: lmin 1..3), lmin 0..3, lmax-lmin 0..6 (d<=3), '
                      '0..4 (d=4), 0..3 (d=5), every coarsening value 0..lmax-lmin, two passes per area; one strategy object per '
                      '(d, version, half of the start levels) re-initialised for every start level; non-trivial = coarsening >= 1 '
                      'and lmax-lmin >= 2', [dict(sweep=s_) for s_ in sweeps[:1]])
@@ -1082,7 +1172,10 @@ def replay(chk, rep):
             if 'only_c' in c and row['c'] != c['only_c']:
                 continue
             coeff = {tuple(l): cf for l, cf in row['scheme']}
-            ms = run_model(7, [(4, [c['dim'], c['version'], row['lmin'], row['lmax'], row['c'], v]) for v in (1, 0)])
+            if c['version'] == 3:
+                ms = [([m[0], m[0], m[2]] if model_ok(m) else m) for m in run_model(7, [(5, [c['dim'], row['lmin'], row['lmax'], row['c']])])]
+            else:
+                ms = run_model(7, [(4, [c['dim'], c['version'], row['lmin'], row['lmax'], row['c'], v]) for v in (1, 0)])
             ip = [sorted(p) for p in row['passes']]
             agree = any(model_ok(m) and sorted(m[0]) == ip[0] and sorted(m[1]) == ip[1] for m in ms)
             d = None
